@@ -28,7 +28,7 @@ func TestVerif_C12_discipline(t *testing.T) {
 		agg.report(r)
 		return
 	}
-	n := r.N(2400, 120000)
+	n := r.N(2400, 60000)
 	r.Parallel(n, func(i int) {
 		e2Guarded(r, "C12/case", func() { e2RunTrace(r, "C12", i, agg, "C12:") })
 	})
